@@ -55,7 +55,7 @@ func c03Enumerated(t core.Tier) int {
 
 func c03Sampled(t core.Tier) int {
 	if t == core.Thorough {
-		return 40000
+		return 150000
 	}
 
 	return 3000
@@ -175,6 +175,12 @@ func c03Alphabet(pattern string) []byte {
 	}
 	for _, b := range []byte{'z', '/', '.'} {
 		add(b)
+	}
+	if strings.ContainsAny(pattern, "^") {
+		// The separator class is decided by exactly these neighbours.
+		for _, b := range []byte{'0', '9', '_', '-', '%', 'Z', ':'} {
+			add(b)
+		}
 	}
 
 	return out
@@ -360,11 +366,14 @@ func c03Check(c *core.Ctx, idx int, pattern string, enumerated bool) {
 	if c.Env.Tier == core.Thorough {
 		maxLen = 5
 	}
-	for len(alpha) > 8 {
-		alpha = alpha[:8]
+	for len(alpha) > 12 {
+		alpha = alpha[:12]
 	}
 	if len(alpha) > 6 && maxLen > 4 {
 		maxLen = 4
+	}
+	if len(alpha) > 9 && maxLen > 3 {
+		maxLen = 3
 	}
 	if !enumerated {
 		maxLen = 3
